@@ -1,5 +1,7 @@
 import RedisEmu.Exec
 import RedisEmu.Proofs.State
+import RedisEmu.Props.C01
+import RedisEmu.Props.C05
 import Mathlib.Tactic.SplitIfs
 /-
   C15 — RESP2 and RESP3 carry the same information. Theorems about `down` (= `resp3To2` of
@@ -605,5 +607,34 @@ theorem dispatchParsed_resp2_only (c : Ctx) (s : State) (conn : Nat) (argv : Lis
   unfold downIf
   simp only [beq_self_eq_true, ↓reduceIte]
   exact down_isResp2 v hv
+
+/-! ### a RESP3 reply on the wire: C01's reader, C05's invariant -/
+
+
+/-- **HGETALL on a RESP3 connection.** In every database that commands can reach (`Db.Distinct`, C05: no field twice)
+    the map HGETALL sends for a live hash is read back by a RESP3 reader as exactly that map — every field and value
+    byte for byte, in the order sent, whatever follows in the stream — provided the sizes fit a 64-bit length field. -/
+theorem hgetall_reply_read_back (c : Ctx) (db : Db) (k : Bytes) (e : Entry) (h : List (Bytes × Bytes)) (rest : Bytes)
+    (hi : db.Distinct) (hl : db.live c.now k = some e) (hv : e.val = .hash h)
+    (hc : h.length < 2 ^ 63) (hs : ∀ fv ∈ h, fv.1.length < 2 ^ 63 ∧ fv.2.length < 2 ^ 63) :
+    parseRes (ser (cmdHGetAll c db k).reply ++ rest) =
+      .complete (cmdHGetAll c db k).reply (ser (cmdHGetAll c db k).reply).length := by
+  have hd : (h.map (·.1)).Nodup := by
+    have := live_distinct hi hl
+    rw [hv] at this; exact this
+  have hr : (cmdHGetAll c db k).reply = .map (mapEntries (h.map fun fv => (fv.1, Value.bulk fv.2))) := by
+    unfold cmdHGetAll hashOf
+    simp [hl, hv, mapEntries]
+  have hcan : canonEntries (h.map fun fv => (fv.1, Value.bulk fv.2)) = mapEntries (h.map fun fv => (fv.1, Value.bulk fv.2)) := by
+    simp [canonEntries, mapEntries, canon]
+  rw [hr]
+  have := map_reply_is_one_value (h.map fun fv => (fv.1, Value.bulk fv.2)) (by rw [List.map_map]; exact hd) (by simpa using hc)
+    (by
+      intro kv hkv
+      obtain ⟨fv, hfv, rfl⟩ := List.mem_map.mp hkv
+      have := hs fv hfv
+      simp [Value.wire, this.1, this.2]) rest
+  rw [hcan] at this
+  exact this
 
 end RedisEmu
